@@ -287,7 +287,7 @@ def specC08 (c : Cfg) (hooks : List Hook) (init : State) (steps : List (Op × St
         <|> ((List.range (ntargets post)).findSome? fun t => (leftover c post t).map fun d =>
               s!"T{t} keeps a _sync_refs watcher on S{d.1}.v{d.2} although no link of T{t} depends on it")
         <|> checkValues c post
-        <|> (if post.aux != init.aux then some "an Event parameter's mode, a `constant` flag, a `syncing` set or the shared generator's witness value is not what it was" else none)
+        <|> (if post.aux != init.aux then some "an Event parameter's value or mode (also as read by its later watchers), a `constant` flag, a cached namespace, a `syncing` set or the shared generator's witness value is not what it was" else none)
       match hard with
       | some why => (n, some (.hard s!"step {n}: {why}"))
       | none =>
@@ -393,11 +393,13 @@ def specC02 (c : Cfg) (hooks : List Hook) (init : State) (steps : List (Op × St
       -- linked parameter was rejected
       let idle : Option String :=
         if o.st.aux != init.aux then
-          some (if rejected o then "after the rejected operation an Event parameter's mode, a `constant` flag, a `syncing` set or a generator shared with another parameter is not as before"
-                else "an Event parameter's mode, a `constant` flag, a `syncing` set or the shared generator's witness value was disturbed")
+          some (if rejected o then "after the rejected operation an Event parameter's value or mode (also as read by its later watchers), a `constant` flag, a cached namespace, a `syncing` set or a generator shared with another parameter is not as before"
+                else "an Event parameter's value or mode (also as read by its later watchers), a `constant` flag, a cached namespace, a `syncing` set or the shared generator's witness value was disturbed")
         else match op with
           | .srcSet .. =>
-            if rejected o && (o.st.refs != pre.refs || o.st.watch != pre.watch) then
+            -- (a user watcher that assigns may run in the flush of the failed sync and change links itself)
+            if rejected o && (o.st.refs != pre.refs || o.st.watch != pre.watch) &&
+               (List.range (ntargets pre)).all (fun t => (hookTouched hooks t o.log).isEmpty) then
               some "a source update whose write into a linked parameter was rejected changed links or watchers"
             else none
           | _ => none
